@@ -12,7 +12,8 @@ pub mod serde_json {
     pub enum Value { Null, Bool(bool), Number(Number), String(String), Array(Opaque), Object(Opaque) }
 }
 // env mirror of Builder for the slice handle_init#store: the real field `option_values` with its real type
-pub struct HashMap<K, V> { pub _p: core::marker::PhantomData<(K, V)> }
+// `id`: ghost identity (a struct of PhantomData only would be single-valued: any two values provably equal)
+pub struct HashMap<K, V> { pub _p: core::marker::PhantomData<(K, V)>, pub id: Ghost<int> }
 impl<V> HashMap<String, V> {
     pub uninterp spec fn view(&self) -> Map<Seq<char>, V>;
     #[verifier::external_body]
